@@ -78,16 +78,32 @@ var errC06Panicked = errors.New("verif: the query function panicked")
 const c06PanicText = "verif: query function panicked"
 
 func c06Guard(f func() error) (err error) {
-	defer func() {
-		if p := recover(); p != nil {
-			if p == any(errC06DB) || p == any(c06PanicText) {
-				err = errC06Panicked
-				return
+	// the call runs in a goroutine of its own, so that a query function that calls runtime.Goexit (`db=4`) ends
+	// that goroutine and not the harness: the deferred functions run, no panic value is seen, f never returned
+	done := make(chan struct{})
+	var foreign any
+	go func() {
+		defer close(done)
+		returned := false
+		defer func() {
+			if p := recover(); p != nil {
+				if p == any(errC06DB) || p == any(c06PanicText) {
+					err = errC06Panicked
+				} else {
+					foreign = p
+				}
+			} else if !returned {
+				err = errC06Panicked // runtime.Goexit
 			}
-			panic(p)
-		}
+		}()
+		err = f()
+		returned = true
 	}()
-	return f()
+	<-done
+	if foreign != nil {
+		panic(foreign)
+	}
+	return err
 }
 
 func c06Val(tok string) (any, string) {
@@ -292,6 +308,8 @@ func TestVerifC06(t *testing.T) {
 					panic(errC06DB)
 				case "3":
 					panic(c06PanicText)
+				case "4":
+					runtime.Goexit()
 				}
 			}
 			// `nc=1`: the operation goes through the context-free wrapper of the entry point (QueryRow, Exec, DelCache, …)
@@ -909,6 +927,8 @@ func c06DBFaultP(r *verifh.Rng) string {
 		return " db=2"
 	case 1:
 		return " db=3"
+	case 2:
+		return " db=4"
 	}
 	return c06DBFault(r)
 }
@@ -982,6 +1002,8 @@ var c06NXScenario = verifh.Section{Cfg: "exp=20000 nf=3000 stale=report nodes=1 
 	// index query and primary query): nothing is cached, the key stays readable, also for concurrent readers
 	"exec p3,x3 put:3:30:3", "take p3 db=2", "take p3 j=0", "del p3", "take p3 db=3 nc=1", "ctake p3 n=3", "del p3,x3",
 	"qindex x3 db=2", "qindex x3 j=1000", "del p3", "qindex x3 db=3 nc=1", "qindex x3", "take p4 db=2", "take p4 db=3", "take p4", "cmix p3+p4 n=4 chain=1 gmp=1",
+	// the query function calls runtime.Goexit: the deferred release runs, nothing is cached, the key stays readable
+	"del p3,p4,x3", "take p3 db=4", "take p3 j=0", "del p3,x3", "qindex x3 db=4 nc=1", "qindex x3", "del p3", "ctake p3 n=3",
 }}
 
 // several CachedConn over the same servers, replayed on every run: what one instance loads the others serve
